@@ -2204,3 +2204,39 @@ Proof.
   intros Hh Hg t Hl. destruct (ho_cells _ _ Hh _ _ Hl) as (v & Hg' & Hc).
   rewrite Hg in Hg'; inversion Hg'; subst. inversion Hc; auto.
 Qed.
+
+(* ---------- typeof ---------- *)
+(* the tag of the any cell built by an Any node is the node's annotation ... *)
+Lemma eany_tag n P e a t s l s' :
+  eval_expr n P e (EAny a t) s = (Ok l, s') -> exists i, hget (st_heap s') l = Some (HAny t i).
+Proof.
+  destruct n; [discriminate|]. cbn [eval_expr]. unfold bindM.
+  destruct (tick s) as [[[]|] s1]; [|discriminate].
+  destruct (eval_expr n P e a s1) as [[l0|] s2]; [|discriminate].
+  destruct (load l0 s2) as [[v|] s3]; [|discriminate].
+  destruct v; try discriminate; unfold alloc; simpl; intros H; inversion H; subst; simpl;
+    unfold hget; simpl; rewrite PositiveMap.gss; eauto.
+Qed.
+
+(* ... copying an argument keeps the tag ... *)
+Lemma copy_or_ref_tag d l s l' s' u i :
+  copy_or_ref d l s = (Ok l', s') -> hget (st_heap s) l = Some (HAny u i) ->
+  exists i', hget (st_heap s') l' = Some (HAny u i').
+Proof.
+  destruct d; [discriminate|]. cbn [copy_or_ref]. unfold bindM, load. intros H Hg. rewrite Hg in H.
+  destruct (copy_or_ref d i s) as [[i'|] s1]; [|discriminate].
+  unfold alloc in H; simpl in H. inversion H; subst. simpl. unfold hget; simpl. rewrite PositiveMap.gss; eauto.
+Qed.
+
+(* ... and typeof returns the text of the tag *)
+Lemma typeof_any_tag e l u i s :
+  hget (st_heap s) l = Some (HAny u i) ->
+  exists m r s', builtin (s_ "typeof") e [l] = Some m /\ m s = (Ok (Some r), s') /\
+                 hget (st_heap s') r = Some (HStr (ty_str u)).
+Proof.
+  intros Hg. unfold builtin.
+  repeat match goal with |- context [name_is ?a ?b] =>
+    let v := eval vm_compute in (name_is a b) in change (name_is a b) with v; cbv iota end.
+  eexists _, _, _. split; [reflexivity|]. unfold bindM, load. rewrite Hg. unfold alloc, Sem.ret. simpl.
+  split; [reflexivity|]. unfold hget; simpl. apply PositiveMap.gss.
+Qed.
